@@ -186,6 +186,45 @@ func checkC19(c C19Case, o *Obs) error {
 			return fmt.Errorf("%s: %v", tc.name, err)
 		}
 	}
+	// The value returned by PreOrder/PostOrder stands for the traversal: ranging over it again,
+	// also after an abandoned pass (of this or of another iterator), visits every node again.
+	if len(nodes) <= 5000 {
+		for _, pre := range []bool{true, false} {
+			it, want, name := root.PostOrder(), refPostOrder(root, nil), "PostOrder"
+			if pre {
+				it, want, name = root.PreOrder(), refPreOrder(root, nil), "PreOrder"
+			}
+			for pass := 0; pass < 3; pass++ {
+				var got []*newick.Node
+				stopAt := -1
+				if pass == 1 {
+					stopAt = len(nodes)/2 + 1 // abandon this pass
+				}
+				if p := catch(func() {
+					for n := range it {
+						got = append(got, n)
+						if len(got) == stopAt || len(got) > len(nodes)+1 {
+							break
+						}
+					}
+				}); p != nil {
+					return fmt.Errorf("%s pass %d over the same iterator value panicked: %v", name, pass, p)
+				}
+				wantN := len(want)
+				if stopAt > 0 {
+					wantN = min(stopAt, len(want))
+				}
+				if len(got) != wantN {
+					return fmt.Errorf("%s pass %d over the same iterator value (pass 1 was abandoned after %d nodes) yields %d nodes, want %d (parents %s)", name, pass, len(nodes)/2+1, len(got), wantN, abbreviateInts(pa))
+				}
+				for i := range got {
+					if got[i] != want[i] {
+						return fmt.Errorf("%s pass %d over the same iterator value: item %d is node %d, want node %d (parents %s)", name, pass, i, index[got[i]], index[want[i]], abbreviateInts(pa))
+					}
+				}
+			}
+		}
+	}
 	// A traversal started at an inner node covers exactly its subtree.
 	if len(nodes) > 2 && len(nodes) < 5000 {
 		sub := nodes[len(nodes)/2]
